@@ -72,7 +72,8 @@ def classify(ctx, tr, recs):
             if e['op'] in ('exactsum', 'dynprog'):
                 obs = e['obs']
                 attrs['kind'] = e['kind']
-                attrs['reuses_item'] = any(obs.count(x) > e['items'].count(x) for x in obs)
+                attrs['foreign_item'] = any(x not in e['items'] for x in obs)          # an element that is not in the given list at all is another defect than the known one
+                attrs['reuses_item'] = (not attrs['foreign_item']) and any(obs.count(x) > e['items'].count(x) for x in obs)
                 attrs['sum_ok'] = sum(x[1] for x in obs) == e['s'] if e['kind'] == 'list' else False
             attrs.pop('step_in_history')
             sym = ('raises:' + e['raised']) if cl['c'] == 'must-not-raise' else 'wrong:' + cl['c']
@@ -108,6 +109,10 @@ def run(ctx):
                 for s in range(0, sum(ws) + 2):
                     ev.append(ev_sum('exactsum', items, s)); ev.append(ev_sum('exactsum', items, s))
                     ev.append(ev_sum('dynprog', items, s)); ev.append(ev_sum('dynprog', items, s))
+                # the same weights carried by OTHER objects (labels tied to nothing the weights determine): an answer is made of the given items
+                items2 = [[50 + 3 * n - 2 * i, w] for i, w in enumerate(order)]
+                for s in range(0, sum(ws) + 2):
+                    ev.append(ev_sum('dynprog', items2, s)); ev.append(ev_sum('exactsum', items2, s))
                 # interleave: an earlier target again after the others
                 ev.append(ev_sum('exactsum', items, max(sum(ws) - 1, 0))); ev.append(ev_sum('exactsum', items, 1))
                 traces.append(dict(ev=ev)); ctx.mark(('s', str(items)))
@@ -173,7 +178,7 @@ def run(ctx):
             ev.append(ev_nextperm(l)); ev.append(ev_nextperm(l[1:]))
         ev.append(ev_nextperm([0, 1] + [2] * (n // 3) + [1] * (n // 3) + [0] * (n // 3)))
         traces.append(dict(ev=ev)); ctx.mark(('longperm', n))
-    ctx.exhaustive_subspaces.append('every multiset of <= %d weights in 1..4, in both orders, every target 0..sum+1; each call repeated; again with opaque item objects; one list object edited in place between calls' % M)
+    ctx.exhaustive_subspaces.append('every multiset of <= %d weights in 1..4, in both orders, every target 0..sum+1; each call repeated; the same weights again on differently labelled items; again with opaque item objects; one list object edited in place between calls' % M)
     ctx.evaluations = sum(len(t['ev']) for t in traces)
     ctx.sample(traces[40]['ev'][:3]); ctx.sample(traces[-5]['ev'][:4])
     bad = ctx.validate('trace/Trace_Combinat.tla', traces, lambda t: len(t['ev']), what='Trace_Combinat')
